@@ -160,6 +160,9 @@ type Spec struct {
 	// UpgradeSigner, if set, is registered as the (only, sufficient) multi-signature signer for contract upgrades: the
 	// record a committed MultiSignAccountTx leaves in the tx database (libs/txmgr saveMultiSignersInfo).
 	UpgradeSigner *Acct
+	// Validators, if set, is the validator set the node knows as "last changed" (node start-up and consensus tell the
+	// application): the signers of a MultiSignAccountTx are checked against it.
+	Validators []*types.Validator
 	// Candidates are elected validator candidates present from genesis: written into the candidates contract's storage
 	// (the layout state.GetAllCandidates / UpdateCandidateScore read) and into the genesis TxsResult.
 	Candidates []CandidateSeed
@@ -339,6 +342,9 @@ func Open(spec *Spec, dbs *DBSet) (*World, error) {
 		return nil, err
 	}
 	w.App = a
+	if len(spec.Validators) > 0 {
+		a.SetLastChangedVals(0, spec.Validators)
+	}
 	mc := spec.Mempool
 	if mc == nil {
 		mc = DefaultMempoolConfig()
